@@ -55,6 +55,7 @@ def run(chk):
     for st in states:
         {"ctor": ctor, "conv": conv, "arith": arith, "note": note, "render": render}[st["kind"]](chk, ureg, st, rng)
     chk.traces += len(states)
+    ufloat_with_unit(chk, ureg)
     chk.mark("states")
     randomised(chk, ureg, rng, 1500 if chk.tier == "thorough" else 300)
     return chk.finish(
@@ -105,6 +106,25 @@ def ctor(chk, ureg, st, rng):
         and close(m.magnitude.nominal_value, fr(out["value"])) and close(m.magnitude.std_dev, fr(out["error"]))
     if not ok:
         chk.diverge(dict(sig, clause="accessors"), {"form": form, "value": v, "error": e, "unit": u, "observed": {k_: repr(x) for k_, x in got.items()}})
+
+
+def ufloat_with_unit(chk, ureg):
+    """a bare ufloat combined with a Unit object makes the quantity with that uncertain magnitude, on either side of * and /"""
+    from uncertainties import ufloat
+    x = ufloat(4.0, 0.1)
+    for name, fn, want_units, want_nom in (("ufloat * unit", lambda: x * ureg.second, {"second": 1}, 4.0), ("unit * ufloat", lambda: ureg.second * x, {"second": 1}, 4.0),
+                                            ("ufloat / unit", lambda: x / ureg.second, {"second": -1}, 4.0), ("unit / ufloat", lambda: ureg.second / x, {"second": 1}, 0.25),
+                                            ("ufloat * quantity", lambda: x * ureg.Quantity(2.0, "meter"), {"meter": 1}, 8.0), ("quantity / ufloat", lambda: ureg.Quantity(2.0, "meter") / x, {"meter": 1}, 0.5),
+                                            ("ufloat / quantity", lambda: x / ureg.Quantity(2.0, "meter"), {"meter": -1}, 2.0)):
+        chk.case(("ufloat-with-unit", name))
+        try:
+            r = fn()
+            ok = {k: int(v) for k, v in r.unit_items()} == want_units and close(r.magnitude.nominal_value, want_nom) and r.magnitude.std_dev > 0
+        except Exception as e:
+            chk.diverge({"kind": "ctor", "clause": "ufloat-with-unit-raises", "form": name, "exc": type(e).__name__}, {"form": name})
+            continue
+        if not ok:
+            chk.diverge({"kind": "ctor", "clause": "ufloat-with-unit", "form": name}, {"form": name, "observed": repr(r)})
 
 
 # ---------------------------------------------------------------- conversion
